@@ -575,11 +575,15 @@ void mmd_export_toc_entry_html(DString * out, const char * source, scratch_pad *
 			if (entry_level >= level) {
 				// This entry is a direct descendant of the parent
 				scratch->label_counter = (int) * counter;
-				temp_char = label_from_header(source, entry, scratch);
+				temp_char = NULL;
+
 				if (scratch->extensions & EXT_NO_LABELS) {
-					// Headers carry no id, so there is nothing to link to
+					// Headers carry no id, so there is nothing to link to (and
+					// asking for the label would retype a trailing `[bracket]`
+					// as a manual label, which it is not when labels are off)
 					print_const("<li>");
 				} else {
+					temp_char = label_from_header(source, entry, scratch);
 					printf("<li><a href=\"#%s\">", temp_char);
 				}
 
